@@ -1685,3 +1685,63 @@ def rule_single_field_stride(ctx):
                 ctx.violated("ONEFIELD", key, f.where(line), "`%s += %s * %s` in a loop whose single-field arm ignores the read list, but the record size `%s` is only ever summed over the read list: with no VSsetfields it is 0 and the cursor never moves" % (adv[0], adv[3][0], adv[3][1], adv[1][0]))
     ctx.floor("ONEFIELD", 1, n, "(piece-wise loops with a single-field arm)")
     return n
+
+
+def rule_inner_accumulator_reset(ctx, files=("hdf/src/vrw.c",), floor=3):
+    """ACCRESET (C07): VSread/VSwrite move a request in pieces (`while (done < nelt)`) and, inside each piece, walk the fields
+    with a running byte offset into one user record (`for (j..) { src = Src + offset; ..; offset += esize; }`).  The offset
+    describes a position inside *one* record, so it starts from 0 for every piece: the assignment that resets it stands inside
+    the outer loop, before the field loop.  Hoisted in front of the outer loop it keeps growing, and from the second piece on
+    every field is taken one record further down the caller's buffer."""
+    prog = ctx.prog
+    n = 0
+    for f in prog.lib_funcs():
+        if files and not f.rel.endswith(tuple(files)):
+            continue
+        loops = loops_of(f)
+        for lp, st in loops:
+            # inner loop: has an enclosing loop
+            outer = [a for a in st if a[0] in ("for", "while", "do")]
+            if not outer:
+                continue
+            o = outer[-1]
+            acc = set()
+            reads = set()
+            for e, nd in seq_of(loop_body(lp)):
+                for x in walk(e, True):
+                    if x[0] == "asg" and x[1] == "+=" and kind(strip(x[2])) == "var":
+                        acc.add(strip(x[2])[1])
+                for x in walk(e, True):
+                    if x[0] == "bin" and x[1] == "+":
+                        for s_ in (strip(x[2]), strip(x[3])):
+                            if kind(s_) == "var":
+                                reads.add(s_[1])
+            # the loop's own counter and the piece bookkeeping are not positions inside a record
+            for v in sorted(acc & reads):
+                # only accumulators that the outer loop does not itself advance (a cursor over the whole request is meant to persist)
+                adv_outer = False
+                for e, nd in seq_of(loop_body(o)):
+                    if nd is lp:
+                        continue
+                inner_nodes = set(id(nd) for _e, nd in seq_of(loop_body(lp)))
+                resets = []
+                for e, nd in seq_of(loop_body(o)):
+                    if id(nd) in inner_nodes:
+                        continue
+                    for x in walk(e, True):
+                        if x[0] == "asg" and x[1] == "=" and kind(strip(x[2])) == "var" and strip(x[2])[1] == v:
+                            resets.append(nd)
+                        if x[0] == "asg" and x[1] in ("+=", "-=") and kind(strip(x[2])) == "var" and strip(x[2])[1] == v:
+                            adv_outer = True
+                if adv_outer:
+                    continue
+                # is v set before the outer loop at all (then it is meant as an accumulator of some kind)?
+                n += 1
+                key = "ACCRESET:%s:%s@%d" % (f.name, v, sum(1 for k_ in ctx.instances if k_.key.startswith("ACCRESET:%s:%s@" % (f.name, v))))
+                line = node_line(lp)
+                if resets:
+                    ctx.holds("ACCRESET", key, f.where(line), "`%s` accumulates inside the field loop and is reset inside the enclosing loop, once per piece" % v, nontrivial=True)
+                else:
+                    ctx.violated("ACCRESET", key, f.where(line), "`%s` accumulates inside the inner loop and is read there, but nothing in the enclosing loop resets it: from the second pass of the outer loop on it starts where the previous pass left it" % v)
+    ctx.floor("ACCRESET", floor, n, "(running offsets of an inner loop nested in a piece-wise loop)")
+    return n
